@@ -7,6 +7,7 @@ mod ops_chacha;
 mod ops_conc;
 mod ops_groestl;
 mod ops_jh;
+mod ops_mem;
 mod ops_simd;
 mod ops_null;
 mod ops_skein;
@@ -72,6 +73,7 @@ fn step(ctx: &mut Ctx, toks: &[&str]) -> String {
         }
         ["groestl", ..] => ops_groestl::step(&mut ctx.groestl, toks),
         ["simd", ..] | ["intrin", ..] => ops_simd::step(toks),
+        ["mem", ..] => ops_mem::step(toks),
         ["null", ..] => ops_null::step(toks),
         ["tf", ..] | ["tfl", ..] => ops_threefish::step(toks),
         ["skein", ..] => ops_skein::step(&mut ctx.skein, toks),
@@ -105,6 +107,10 @@ fn main() {
             continue;
         }
         let toks: Vec<&str> = line.split_whitespace().collect();
+        if toks.first() == Some(&"mem") {
+            // a guard-page op may kill the process: everything answered so far must be visible
+            out.flush().unwrap();
+        }
         let r = step(&mut ctx, &toks);
         writeln!(out, "{}", r).unwrap();
     }
